@@ -114,7 +114,7 @@ class Alignment:
             and version == "gfa1"):
           return gfapy.CIGAR._from_string(string, valid=valid, version=version)
       break
-    if version == "gfa2" and re.match(r"^[0-9]+$", string):
+    if version == "gfa2" and re.match(r"^[0-9]+\Z", string):
       # a trace with a single element
       t = gfapy.Trace._from_string(string)
       if not valid:
